@@ -120,6 +120,10 @@ func Open(filename string, opts ...Option) (*Whisper, error) {
 		w.file.Close()
 		return nil, fmt.Errorf("readHeader: %s: %s", filename, err)
 	}
+	if st.Size() < w.header.ExpectedFileSize() {
+		w.file.Close()
+		return nil, fmt.Errorf("file is truncated: %s: size=%d, expected=%d", filename, st.Size(), w.header.ExpectedFileSize())
+	}
 	return w, nil
 }
 
